@@ -34,7 +34,7 @@ def pairs():
       "seg_commit": P("seg_commit", "h_commit", "mi_segment_commit", []),
       "segment_os_alloc": dict(name="segment_os_alloc", entry="h_segment_os_alloc", harness="harness/seg_alloc.c", enforce="mi_segment_os_alloc", config="SCALED", label="PC", unwind=14,
                   replace=["_mi_arena_alloc_aligned", "_mi_os_commit/c_os_commit_rec2", "_mi_arena_free", "mi_segments_track_size", "_mi_segment_map_allocated_at"] + OPT,
-                  functions=["mi_segment_os_alloc"], timeout=600, cbmc_flags=NOPTR, replay={"src": "replay_src/witness_c07.c"}),
+                  functions=["mi_segment_os_alloc"], timeout=1500, cbmc_flags=NOPTR, replay={"src": "replay_src/witness_c07.c"}),
       "reclaim_all": R("reclaim_all", "h_reclaim_all", "_mi_abandoned_reclaim_all", replay={"src": "replay_src/witness_c15.c"}),
       "abandoned_collect": R("abandoned_collect", "h_abandoned_collect", "_mi_abandoned_collect", timeout=900),
       "try_reclaim": R("try_reclaim", "h_try_reclaim", "mi_segment_try_reclaim", timeout=900),
